@@ -10,7 +10,7 @@ import os
 import subprocess
 import tempfile
 
-from harness import machine_prop, monitors
+from harness import machine_prop, monitors, gen
 from harness.check import VERIF
 from harness.props._machine_common import TRUSTED, ASSUMPTIONS, RULE  # noqa
 
@@ -166,6 +166,27 @@ def same_time_starts(rng, n):
     return out
 
 
+def teardown_order(rng, n):
+    """a scope with several children is torn down (the body raises, the notification fires, the owner is cancelled): the
+    children are closed in the order in which they were started, visible through the cleanup code of each"""
+    out = []
+    for _ in range(n):
+        k = rng.choice([3, 4, 5, 6])
+        kids = [['do', 1, 1 + i, ['now'], rng.random() < 0.3,
+                 [['try', [['await', ['delay', 9]], ['log', 10 + i]], [], [['log', 20 + i]]]]] for i in range(k)]
+        how = rng.choice(['raise', 'until', 'cancel'])
+        if how == 'raise':
+            roots = [[['try', [['scope', 1, kids + [['await', ['delay', 1]], ['raise', 0]]]], [[['exception'], [['log', 1]]]], []], ['log', 2]]]
+        elif how == 'until':
+            roots = [[['until', 1, ['delay', 1], kids + [['await', ['delay', 5]]]], ['log', 2]]]
+        else:
+            roots = [[['scope', 2, [['do', 2, 9, ['now'], False, [['scope', 1, kids + [['await', ['delay', 5]]]]]], ['await', ['delay', 1]],
+                                   ['cancel', 9, 3]]], ['log', 2]]]
+        out.append(('teardown-order', dict(start=0, till=None, roots=roots, nflags=1, tracked=[0], nlocks=1, nqueues=1,
+                                           nchans=1, res=[])))
+    return out
+
+
 DIRECT = r'''
 import json, sys
 import usim
@@ -208,6 +229,18 @@ async def main():
         await flag.set()
     out.append(['wake', order])
 usim.run(main())
+# the SimPy layer: processes and timeouts registered before the run start / fire in the order of registration
+from usim.py import Environment
+env = Environment()
+started = []
+def proc(env, i):
+    started.append(('start', i, env.now))
+    yield env.timeout(2)
+    started.append(('two', i, env.now))
+for i in range(5):
+    env.process(proc(env, i))
+env.run()
+out.append(['simpy', started])
 json.dump(out, open(sys.argv[1], 'w'))
 '''
 
@@ -241,6 +274,15 @@ def direct_programs(ctx):
     if isinstance(base, tuple):
         ctx.fail({'direct_program': 'default'}, 'the direct program failed in the default configuration: %s' % base[1], family='direct')
         return
+    want = [['start', i, 0] for i in range(5)] + [['two', i, 2] for i in range(5)]
+    got = [x[1] for x in base if x[0] == 'simpy']
+    if got != [want]:
+        ctx.fail({'direct_program': 'default', 'program': DIRECT}, 'processes registered before env.run() in the order 0..4 ran in the '
+                 'order %r' % (got,), family='direct')
+    got = [x[1] for x in base if x[0] == 'wake']
+    if got != [list(range(7))]:
+        ctx.fail({'direct_program': 'default', 'program': DIRECT}, 'seven waiters of one flag (subscribed 0..6) woke in the order %r'
+                 % (got,), family='direct')
     for name, o in outs.items():
         if o != base:
             diff = o if isinstance(o, tuple) else [(a, b) for a, b in zip(base, o) if a != b][:2]
@@ -250,7 +292,8 @@ def direct_programs(ctx):
 
 def run(ctx):
     scs, impl = machine_prop.run(ctx, FAMILIES, MONITORS, extra_scenarios=waiters_family(ctx.rng, ctx.n(60, 1000)) +
-                                 same_time_starts(ctx.rng, ctx.n(40, 600)))
+                                 same_time_starts(ctx.rng, ctx.n(40, 600)) + teardown_order(ctx.rng, ctx.n(30, 400)) +
+                                 gen.many_timers(ctx.rng, ctx.n(30, 400)))
     differential(ctx, scs, impl)
     direct_programs(ctx)
 
